@@ -167,6 +167,24 @@ Theorem read_rule_refines : forall n pos len, 0 <= pos <= len -> 0 <= n ->
 Proof. exact read_rule_lemma. Qed.
 Print Assumptions read_rule_refines.
 
+(** A seek to the CURRENT position never restarts a stream coder (RLE, skipping Huffman, deflate: the tests are
+    regenerated from the three seek routines; the RLE model uses its test), so sequential writes with such seeks in
+    between are plain sequential writes. *)
+Theorem seek_to_current_position_keeps_stream : forall offset cur,
+  (rle_seek_restarts offset cur <> 0 <-> offset < cur) /\
+  (skp_seek_restarts offset cur <> 0 <-> offset < cur) /\
+  (deflate_seek_restarts offset cur <> 0 <-> offset < cur).
+Proof. exact seek_restart_lemma. Qed.
+Print Assumptions seek_to_current_position_keeps_stream.
+
+(** Hbitwrite has two copies of its "buffer is full" code (partial-byte path and whole-byte loop); they are the same
+    statement list, in which block_offset is advanced before the pre-read of the next block and the final Hseek back
+    to it.  (The write-side block buffer is not modelled further; this ties the two copies to each other.) *)
+Theorem hbitwrite_full_blocks_agree :
+  hbitwrite_full_block_1 = hbitwrite_full_block_2 /\ hbitwrite_block_ok hbitwrite_full_block_1 = true.
+Proof. exact hbitwrite_full_blocks_lemma. Qed.
+Print Assumptions hbitwrite_full_blocks_agree.
+
 (** Bit-granular I/O: ANY sequence of Hbitwrite(count_i, v_i) with 1 <= count_i <= 32 followed by the flush, read
     back with ANY sequence of Hbitread widths 1..32 (any re-partition) and Hbitseek(byte, bit) positions that stay
     inside the written bits, returns exactly what the bit-array specification returns (CompSpec.b_step: a read
